@@ -338,6 +338,7 @@ def context_rule_audit(parser, doc, html, tags):
             txt = node.text_content
             m = re.match(r"[wm](\d+)", txt)
             tag = src.get(m.group(1)) if m else None
+            want = None
             if tag is not None:
                 seen.add(m.group(1))
                 rules = node_rules.get(tag, [])
@@ -351,7 +352,9 @@ def context_rule_audit(parser, doc, html, tags):
                                f"context of its rules matches these ancestors")
             inner = anc + [node.type]
             for c in node.content.content:
-                if not c.is_text:
+                # (a leaf element that no rule takes is transparent: its textblock is the wrapper made when the first text
+                # arrives, so it may or may not have been open when an inline element was matched — not judged)
+                if not c.is_text or tag is None or want is None:
                     continue
                 has = any(mk.type.name == "ctxmark" for mk in c.marks)
                 for piece in re.findall(r"[wmc]\d+", c.text):
@@ -1406,6 +1409,11 @@ def run(ctx):
             walk_case(replay, info, sid, pcs[0], st_r, "parse")
         else:
             ctx.count("placement:not-recorded")
+            if st_r != "ok" or doc_r.to_json() != j:
+                # the schema's parser object is shared by every parse of the process: a second parse of the same input is a
+                # second call on the same object and must give the same document
+                ctx.violation("parse-repeat", "parsing the same HTML fragment a second time with the same schema's parser did not give the "
+                              f"same document: {st_r} {str(doc_r)[:200]}", dict(replay, first=j))
         if rng.random() < 0.5:
             (st_s, sl), pcs = recorded(info, lambda: parsers[name].parse_slice(dom))    # `dom` now carries the lxmltext nodes
             if st_s == "ok" and len(pcs) == 1 and pcs[0]._supported:
